@@ -19,8 +19,9 @@ pub fn ev_line(e: &crate::world::Event) -> String {
 pub fn sample_trace(r: &RunOut, max: usize) -> String {
     let mut lines: Vec<String> = Vec::new();
     lines.push(format!(
-        "family={} role={} sched={:?} p_ext={} cut={:?} ending={:?}",
+        "family={} tags={:?} role={} sched={:?} p_ext={} cut={:?} ending={:?}",
         r.plan.family,
+        r.plan.tags,
         r.plan.role.name(),
         r.plan.sched,
         r.plan.p_ext,
